@@ -247,6 +247,7 @@ pub fn run() -> Report {
     }
     conformance(&mut rep, &root);
     invocation_forms(&mut rep, &root);
+    directory_histories(&mut rep, &root);
     let _ = std::fs::remove_dir_all(&root);
     rep
 }
@@ -293,6 +294,7 @@ fn invocation_forms(rep: &mut Report, root: &std::path::Path) {
         ("numbers with leading zeros", vec![("VERIF_ARGV_FORM", "2")], 2),
         ("numbers with a plus sign", vec![("VERIF_ARGV_FORM", "3")], 2),
         ("options in another order", vec![("VERIF_ARGV_FORM", "4")], 2),
+        ("defaults: no -d (default folder below $HOME), no -c", vec![("VERIF_ARGV_FORM", "5")], 2),
         ("-v", vec![("__verbosity", "1")], 2),
         ("-vv", vec![("__verbosity", "2")], 2),
         ("-vvv", vec![("__verbosity", "3")], 2),
@@ -407,6 +409,18 @@ fn conformance(rep: &mut Report, root: &std::path::Path) {
         cb.push(txs);
     }
     {
+        // many transactions that each have more outputs than any plausible "go parallel from here" threshold: both parallel
+        // regions are busy at once on every worker, the outer tasks outnumber the workers, and a worker that waits for its
+        // inner region has outer work to pick up meanwhile (a lock or a per-worker scratch area held across the inner region
+        // is re-entered then)
+        let h = cb.next_height();
+        let mut txs = vec![coinbase(h, 1, vec![pay(1, 50 * COIN_VALUE)])];
+        for t in 0..24usize {
+            txs.push(Tx { version: 1, segwit: false, inputs: vec![TxIn::spend([0xeb; 32], t as u32)], outputs: (0..1500usize).map(|k| pay(((t * 31 + k) % 250) as u8, 1 + (t * 1500 + k) as u64)).collect(), locktime: t as u32, wide: 0 });
+        }
+        cb.push(txs);
+    }
+    {
         // scripts far longer than any per-read work-splitting threshold, with lengths that no thread count divides evenly
         let h = cb.next_height();
         let outs: Vec<refmodel::ser::TxOut> = [4099usize, 5001, 6002, 9999, 8192, 33_001].iter().map(|n| refmodel::ser::TxOut { value: 1, script: (0..*n).map(|i| if i == 0 { 0x6a } else { (i % 251) as u8 }).collect() }).collect();
@@ -474,5 +488,120 @@ fn conformance(rep: &mut Report, root: &std::path::Path) {
     for p in parts {
         rep.merge(p);
     }
-    rep.sampled_supplement.push(json!({"what": "free-running real-rayon conformance pass (SAMPLING, not part of the exhaustive claim)", "runs": n, "threads": [1, 2, 3, 8, 16, 64], "blocks": "300 txs x 3 outputs, 40 txs x 60 outputs, 2x2, a 1500-output tx repeating one script between different ones, a 300-output tx of identical scripts", "oracle": "every run equals the single-thread run of the same world and callback"}));
+    rep.sampled_supplement.push(json!({"what": "free-running real-rayon conformance pass (SAMPLING, not part of the exhaustive claim)", "runs": n, "threads": [1, 2, 3, 8, 16, 64], "blocks": "300 txs x 3 outputs, 40 txs x 60 outputs, 2x2, a 1500-output tx repeating one script between different ones, a 300-output tx of identical scripts, 4500 one-output txs, 24 txs x 1500 outputs, scripts of 4099..33001 bytes", "oracle": "every run equals the single-thread run of the same world and callback"}));
+}
+
+
+/// "... depends only on the data directory and the options": not on what stood at the same PATH before, nor on how earlier
+/// runs over it ended. Four directories take turns at one path - A (4 blocks), B (another chain, 3 blocks), and two whose
+/// block index cannot be loaded (F: a record whose value is too short, written after several re-openings of the database, so
+/// its files carry higher numbers than those of A and B; G: a record that ends inside a VarInt) - in ALL sequences of 1..3
+/// runs; the process environment's scratch locations (TMPDIR, HOME, XDG cache / runtime / state directories, current
+/// directory) persist across the runs of a sequence. Every run must end like the run over the same directory on a fresh
+/// path with fresh scratch locations: same exit status, same files.
+fn directory_histories(rep: &mut Report, root: &std::path::Path) {
+    use refmodel::world::IndexOp;
+    let btc = coin("bitcoin");
+    let a = World::simple(btc, &dependent_chain(btc, 0, 4).blocks, 0);
+    let other = {
+        let mut cb = ChainBuilder::with_genesis(btc);
+        for k in 0..2u64 {
+            let h = cb.next_height();
+            cb.push_raw(vec![coinbase(h, 77 + k as u32, vec![pay(90 + k as u8, 50 * COIN_VALUE)])]);
+        }
+        cb
+    };
+    let b = World::simple(btc, &other.blocks, 0);
+    let longer = dependent_chain(btc, 0, 6);
+    let mut f = World::new(btc);
+    for _ in 0..4 {
+        f.index_ops.push(IndexOp::Put(b"F\x07txindex".to_vec(), vec![1]));
+        f.index_ops.push(IndexOp::Reopen);
+    }
+    for (h, blk) in longer.blocks.iter().enumerate() {
+        f.add_block(0, h as u64, blk);
+    }
+    let mut g = f.clone();
+    let mut key = vec![b'b'];
+    key.extend_from_slice(&[0xab; 32]);
+    f.index_ops.push(IndexOp::Put(key.clone(), vec![0x01, 0x02, 0x03]));
+    g.index_ops.push(IndexOp::Put(key, vec![0x81, 0x82, 0x83, 0x84]));
+    let worlds: Vec<(&str, World)> = vec![("A", a), ("B", b), ("F", f), ("G", g)];
+    let cbs = ["csvdump", "unspentcsvdump"];
+    let scratch_env = |dir: &std::path::Path| -> Vec<(String, String)> {
+        let mut v = Vec::new();
+        for (k, sub) in [("TMPDIR", "tmp"), ("HOME", "home"), ("XDG_CACHE_HOME", "home/.cache"), ("XDG_RUNTIME_DIR", "run"), ("XDG_STATE_HOME", "home/.local/state"), ("XDG_DATA_HOME", "home/.local/share"), ("XDG_CONFIG_HOME", "home/.config")] {
+            let p = dir.join(sub);
+            let _ = std::fs::create_dir_all(&p);
+            v.push((k.to_string(), p.display().to_string()));
+        }
+        v
+    };
+    let essential = |r: &RunResult| -> serde_json::Value { json!({"exit": r.code, "signal": r.signal, "files": r.files.iter().map(|(k, v)| (k.clone(), hex(&sha256(&canon(k, v))))).collect::<BTreeMap<String, String>>()}) };
+    // references: every directory on a fresh path with fresh scratch locations
+    let mut reference: BTreeMap<(usize, &str), serde_json::Value> = BTreeMap::new();
+    for (wi, (_, w)) in worlds.iter().enumerate() {
+        for cb in cbs {
+            let wk = Worker::new(root, 700 + wi * 2 + if cb == "csvdump" { 0 } else { 1 });
+            if let Err(m) = wk.materialise(w) {
+                return rep.machinery(m);
+            }
+            let mut spec = RunSpec::new("bitcoin", cb);
+            for (k, v) in scratch_env(&wk.dir) {
+                spec.env.push((k, v));
+            }
+            let r = wk.run(&spec);
+            rep.transitions += 1;
+            reference.insert((wi, cb), essential(&r));
+        }
+    }
+    if reference[&(0, "csvdump")]["exit"] != json!(0) || reference[&(2, "csvdump")]["exit"] == json!(0) {
+        rep.count("note:directory-histories:reference-runs-unexpected", 1);
+    }
+    let mut seqs: Vec<Vec<usize>> = Vec::new();
+    let mut frontier: Vec<Vec<usize>> = vec![vec![]];
+    for _ in 0..3 {
+        let mut next = Vec::new();
+        for s in &frontier {
+            for o in 0..worlds.len() {
+                let mut x = s.clone();
+                x.push(o);
+                next.push(x);
+            }
+        }
+        seqs.extend(next.iter().cloned());
+        frontier = next;
+    }
+    let parts = par_fold(
+        &seqs,
+        || Report::new("C13", "e1"),
+        |w, i, seq, acc| {
+            let wk = Worker::new(root, 720 + w);
+            let env = scratch_env(&wk.dir);
+            acc.states += 1;
+            acc.nontrivial.insert(h8(format!("dirhist{:?}", seq).as_bytes()));
+            acc.count("directory-histories", 1);
+            for (k, wi) in seq.iter().enumerate() {
+                let cb = cbs[(i + k) % 2];
+                if let Err(m) = wk.materialise(&worlds[*wi].1) {
+                    return acc.machinery(m);
+                }
+                let mut spec = RunSpec::new("bitcoin", cb);
+                for (k, v) in &env {
+                    spec.env.push((k.clone(), v.clone()));
+                }
+                let r = wk.run(&spec);
+                acc.transitions += 1;
+                let o = essential(&r);
+                if o != reference[&(*wi, cb)] {
+                    let names: Vec<&str> = seq.iter().map(|x| worlds[*x].0).collect();
+                    acc.disagree("result-depends-on-what-stood-at-the-path-before", format!("directories {:?} in turn at one path, step {} ({} over {}): {} vs the same run on a fresh path {}; stderr: {}", names, k, cb, worlds[*wi].0, o.to_string().chars().take(300).collect::<String>(), reference[&(*wi, cb)].to_string().chars().take(300).collect::<String>(), r.stderr.lines().next().unwrap_or("")), json!({"kind": "e1-described", "directories_in_turn": names, "step": k, "callback": cb}));
+                    return;
+                }
+            }
+        },
+    );
+    for p in parts {
+        rep.merge(p);
+    }
 }
